@@ -169,22 +169,22 @@ theorem valOfList_canonList (v : Val) : valOfList (canonList v) = canonVal v := 
         simp [canonList, valOfList, canonVal, canonTerms, Terms.toList, h]
 
 
-/-! ### statements (fuel: "for all sufficiently large n") -/
+/-! ### statements (fuel: every n from an explicit bound, linear in the number of tokens, on) -/
 
 def PT (t : Term) : Prop :=
-  ∃ n0, ∀ n, n0 ≤ n → ∀ rest, parseTerm n (toksTerm t ++ rest) = .ok (canonTerm t, rest)
+  ∃ n0, n0 ≤ 6 * (toksTerm t).length + 1 ∧ ∀ n, n0 ≤ n → ∀ rest, parseTerm n (toksTerm t ++ rest) = .ok (canonTerm t, rest)
 
 def PTs (t : Term) (ts : Terms) : Prop :=
-  ∃ n0, ∀ n, n0 ≤ n → ∀ rest, noAmp rest →
+  ∃ n0, n0 ≤ 6 * ((toksTerm t).length + (toksAmp ts).length) + 2 ∧ ∀ n, n0 ≤ n → ∀ rest, noAmp rest →
     parseTerms n (toksTerm t ++ (toksAmp ts ++ rest)) = .ok (canonTerm t :: (canonTerms ts).toList, rest)
 
 def PV (v : Val) : Prop :=
-  ∃ n0, ∀ n, n0 ≤ n → ∀ rest, noAmp rest →
+  ∃ n0, n0 ≤ 6 * (toksVal v).length + 2 ∧ ∀ n, n0 ≤ n → ∀ rest, noAmp rest →
     parseTerms n (toksVal v ++ rest) = .ok (canonList v, rest)
 
 theorem pterms_nil (t : Term) (ht : PT t) : PTs t .nil := by
-  obtain ⟨n1, h1⟩ := ht
-  refine ⟨n1 + 1, fun n hn rest hr => ?_⟩
+  obtain ⟨n1, b1, h1⟩ := ht
+  refine ⟨n1 + 1, by simp only [toksAmp, List.length_nil]; omega, fun n hn rest hr => ?_⟩
   obtain ⟨m, rfl⟩ : ∃ m, n = m + 1 := ⟨n - 1, by omega⟩
   rw [parseTerms]
   simp only [toksAmp, List.nil_append, h1 m (by omega) rest, canonTerms, Terms.toList]
@@ -193,23 +193,24 @@ theorem pterms_nil (t : Term) (ht : PT t) : PTs t .nil := by
   | cons a r => cases a <;> simp_all [noAmp]
 
 theorem pterms_cons (t t2 : Term) (ts : Terms) (ht : PT t) (hts : PTs t2 ts) : PTs t (.cons t2 ts) := by
-  obtain ⟨n1, h1⟩ := ht
-  obtain ⟨n2, h2⟩ := hts
-  refine ⟨n1 + n2 + 1, fun n hn rest hr => ?_⟩
+  obtain ⟨n1, b1, h1⟩ := ht
+  obtain ⟨n2, b2, h2⟩ := hts
+  refine ⟨n1 + n2 + 1, by simp only [toksAmp, List.length_cons, List.length_append]; omega,
+    fun n hn rest hr => ?_⟩
   obtain ⟨m, rfl⟩ : ∃ m, n = m + 1 := ⟨n - 1, by omega⟩
   rw [parseTerms]
   simp only [toksAmp, List.cons_append, List.append_assoc, h1 m (by omega) _, h2 m (by omega) rest hr,
     canonTerms, Terms.toList]
 
 theorem pval_term (t : Term) (ht : PT t) : PV (.term t) := by
-  obtain ⟨n1, h1⟩ := pterms_nil t ht
-  refine ⟨n1, fun n hn rest hr => ?_⟩
+  obtain ⟨n1, b1, h1⟩ := pterms_nil t ht
+  refine ⟨n1, by simpa [toksVal, toksAmp] using b1, fun n hn rest hr => ?_⟩
   have := h1 n hn rest hr
   simpa [toksVal, toksAmp, canonList, canonTerms, Terms.toList] using this
 
 theorem pval_conj (t : Term) (ts : Terms) (h : PTs t ts) : PV (.conj (.cons t ts)) := by
-  obtain ⟨n1, h1⟩ := h
-  refine ⟨n1, fun n hn rest hr => ?_⟩
+  obtain ⟨n1, b1, h1⟩ := h
+  refine ⟨n1, by simpa [toksVal, toksTerms] using b1, fun n hn rest hr => ?_⟩
   have := h1 n hn rest hr
   simpa [toksVal, toksTerms, canonList, canonTerms, Terms.toList] using this
 
@@ -227,22 +228,23 @@ def PE : End → Prop
   | _ => True
 
 def PL (diff : Bool) (v : Val) (vs : Items) (e : End) : Prop :=
-  ∃ n0, ∀ n, n0 ≤ n → ∀ rest,
+  ∃ n0, n0 ≤ 6 * ((toksVal v).length + (toksItemsC vs).length + (toksEnd false e).length) + 3 ∧
+    ∀ n, n0 ≤ n → ∀ rest,
     parseListItem n diff (toksVal v ++ (toksItemsC vs ++ (toksEnd false e ++ brkTok diff :: rest)))
       = .ok (canonVal v :: (canonItems vs).toList, pendOf e, rest)
 
 theorem plist_last (diff : Bool) (v : Val) (e : End) (hv : PV v) (he : PE e) : PL diff v .nil e := by
-  obtain ⟨n1, h1⟩ := hv
+  obtain ⟨n1, b1, h1⟩ := hv
   cases e with
   | closed =>
-    refine ⟨n1 + 1, fun n hn rest => ?_⟩
+    refine ⟨n1 + 1, by simp only [toksItemsC, toksEnd, List.length_nil]; omega, fun n hn rest => ?_⟩
     obtain ⟨m, rfl⟩ : ∃ m, n = m + 1 := ⟨n - 1, by omega⟩
     rw [parseListItem]
     have hp := h1 m (by omega) (brkTok diff :: rest) (by cases diff <;> simp [brkTok, noAmp])
     simp only [toksItemsC, toksEnd, List.nil_append, hp, valOfList_canonList, canonItems, Items.toList, pendOf]
     cases diff <;> simp [brkTok, isBrk]
   | opn =>
-    refine ⟨n1 + 2, fun n hn rest => ?_⟩
+    refine ⟨n1 + 2, by simp [toksItemsC, toksEnd]; omega, fun n hn rest => ?_⟩
     obtain ⟨m, rfl⟩ : ∃ m, n = m + 2 := ⟨n - 2, by omega⟩
     rw [parseListItem]
     have hp := h1 (m + 1) (by omega) (.comma :: .ellipsis :: brkTok diff :: rest) (by simp [noAmp])
@@ -250,8 +252,9 @@ theorem plist_last (diff : Bool) (v : Val) (e : End) (hv : PV v) (he : PE e) : P
       valOfList_canonList, canonItems, Items.toList, pendOf, parseListLoop]
     cases diff <;> simp [brkTok, isBrk]
   | dotted w =>
-    obtain ⟨n2, h2⟩ := he
-    refine ⟨n1 + n2 + 1, fun n hn rest => ?_⟩
+    obtain ⟨n2, b2, h2⟩ := he
+    refine ⟨n1 + n2 + 1, by simp only [toksItemsC, toksEnd, List.length_nil, List.length_cons]; omega,
+      fun n hn rest => ?_⟩
     obtain ⟨m, rfl⟩ : ∃ m, n = m + 1 := ⟨n - 1, by omega⟩
     rw [parseListItem]
     have hp := h1 m (by omega) (.dot :: (toksVal w ++ brkTok diff :: rest)) (by simp [noAmp])
@@ -262,9 +265,10 @@ theorem plist_last (diff : Bool) (v : Val) (e : End) (hv : PV v) (he : PE e) : P
 
 theorem plist_cons (diff : Bool) (v v2 : Val) (vs : Items) (e : End) (hv : PV v) (hw2 : wfVal v2 = true)
     (h2 : PL diff v2 vs e) : PL diff v (.cons v2 vs) e := by
-  obtain ⟨n1, h1⟩ := hv
-  obtain ⟨n2, h2⟩ := h2
-  refine ⟨n1 + n2 + 2, fun n hn rest => ?_⟩
+  obtain ⟨n1, b1, h1⟩ := hv
+  obtain ⟨n2, b2, h2⟩ := h2
+  refine ⟨n1 + n2 + 2, by simp only [toksItemsC, List.length_cons, List.length_append]; omega,
+    fun n hn rest => ?_⟩
   obtain ⟨m, rfl⟩ : ∃ m, n = m + 2 := ⟨n - 2, by omega⟩
   rw [parseListItem]
   have hp := h1 (m + 1) (by omega)
@@ -291,13 +295,13 @@ theorem canonItems_cons_toList (v : Val) (vs : Items) :
   simp [Items.ofList, canonItems, Items.ofList_toList]
 
 theorem pterm_leaf (t : Term) (h : isLeaf t = true) : PT t := by
-  refine ⟨1, fun n hn rest => ?_⟩
+  refine ⟨1, by omega, fun n hn rest => ?_⟩
   obtain ⟨m, rfl⟩ : ∃ m, n = m + 1 := ⟨n - 1, by omega⟩
   rw [parseTerm_leaf t h m rest]
   cases t <;> simp_all [canonTerm, isLeaf]
 
 theorem pterm_cons_nil (d : Option Str) (e : End) (he : wfEnd true e = true) : PT (.cons d .nil e) := by
-  refine ⟨3, fun n hn rest => ?_⟩
+  refine ⟨3, by simp [toksTerm]; omega, fun n hn rest => ?_⟩
   obtain ⟨m, rfl⟩ : ∃ m, n = m + 3 := ⟨n - 3, by omega⟩
   cases e with
   | closed =>
@@ -312,8 +316,8 @@ theorem pterm_cons_nil (d : Option Str) (e : End) (he : wfEnd true e = true) : P
 
 theorem pterm_cons_cons (d : Option Str) (v : Val) (vs : Items) (e : End) (hv : wfVal v = true)
     (he : wfEnd false e = true) (hl : PL false v vs e) : PT (.cons d (.cons v vs) e) := by
-  obtain ⟨n1, h1⟩ := hl
-  refine ⟨n1 + 3, fun n hn rest => ?_⟩
+  obtain ⟨n1, b1, h1⟩ := hl
+  refine ⟨n1 + 3, by simp [toksTerm, toksItems, Items.isNil]; omega, fun n hn rest => ?_⟩
   obtain ⟨m, rfl⟩ : ∃ m, n = m + 3 := ⟨n - 3, by omega⟩
   have hs := toksVal_starts v hv (toksItemsC vs ++ (toksEnd false e ++ brkTok false :: rest))
   have h := h1 m (by omega) rest
@@ -327,15 +331,15 @@ theorem pterm_cons_cons (d : Option Str) (v : Val) (vs : Items) (e : End) (hv : 
     simp [toksTerm, toksItems, docTok, Items.isNil, parseTerm, e1, hmk, canonTerm]
 
 theorem pterm_diff_nil (d : Option Str) : PT (.diff d .nil) := by
-  refine ⟨2, fun n hn rest => ?_⟩
+  refine ⟨2, by simp [toksTerm]; omega, fun n hn rest => ?_⟩
   obtain ⟨m, rfl⟩ : ∃ m, n = m + 2 := ⟨n - 2, by omega⟩
   cases d <;>
     simp [toksTerm, toksItems, docTok, parseTerm, parseList, isBrk, Items.ofList, canonTerm, canonItems]
 
 theorem pterm_diff_cons (d : Option Str) (v : Val) (vs : Items) (hv : wfVal v = true)
     (hl : PL true v vs .closed) : PT (.diff d (.cons v vs)) := by
-  obtain ⟨n1, h1⟩ := hl
-  refine ⟨n1 + 3, fun n hn rest => ?_⟩
+  obtain ⟨n1, b1, h1⟩ := hl
+  refine ⟨n1 + 3, by simp [toksTerm, toksItems, toksEnd] at b1 ⊢; omega, fun n hn rest => ?_⟩
   obtain ⟨m, rfl⟩ : ∃ m, n = m + 3 := ⟨n - 3, by omega⟩
   have hs := toksVal_starts v hv (toksItemsC vs ++ (toksEnd false .closed ++ brkTok true :: rest))
   have h := h1 m (by omega) rest
@@ -383,7 +387,7 @@ def entries : Feats → List (List Str × Val)
   | .cons k v fs => entry k v :: entries fs
 
 def PFs (k : Str) (v : Val) (fs : Feats) : Prop :=
-  ∃ n0, ∀ n, n0 ≤ n → ∀ rest,
+  ∃ n0, n0 ≤ 6 * ((toksFeat [] k v).length + (toksFeatsC fs).length) + 3 ∧ ∀ n, n0 ≤ n → ∀ rest,
     parseFeatLoop n (toksFeat [] k v ++ (toksFeatsC fs ++ .rbrack :: rest)) = .ok (entry k v :: entries fs, rest)
 
 theorem toksFeat_shape (k : Str) (v : Val) (X : List Tok) :
@@ -391,9 +395,14 @@ theorem toksFeat_shape (k : Str) (v : Val) (X : List Tok) :
   rw [toksFeat_eq (sizeOf v) v (Nat.le_refl _) [] k]
   simp [pathToks_cons]
 
+theorem toksFeat_length (k : Str) (v : Val) :
+    (toksFeat [] k v).length = 1 + (dotToks (chainOf v)).length + (toksVal (leafOf v)).length := by
+  have := congrArg List.length (toksFeat_shape k v [])
+  simpa [Nat.add_assoc, Nat.add_comm, Nat.add_left_comm] using this
+
 theorem pfeats_nil (k : Str) (v : Val) (hw : wfVal (leafOf v) = true) (hv : PV (leafOf v)) : PFs k v .nil := by
-  obtain ⟨n1, h1⟩ := hv
-  refine ⟨n1 + 1, fun n hn rest => ?_⟩
+  obtain ⟨n1, b1, h1⟩ := hv
+  refine ⟨n1 + 1, by rw [toksFeat_length]; simp only [toksFeatsC, List.length_nil]; omega, fun n hn rest => ?_⟩
   obtain ⟨m, rfl⟩ : ∃ m, n = m + 1 := ⟨n - 1, by omega⟩
   rw [toksFeat_shape, parseFeatLoop]
   have hs := starts_noDot _ (toksVal_starts (leafOf v) hw (toksFeatsC .nil ++ .rbrack :: rest))
@@ -403,9 +412,11 @@ theorem pfeats_nil (k : Str) (v : Val) (hw : wfVal (leafOf v) = true) (hv : PV (
 
 theorem pfeats_cons (k k2 : Str) (v v2 : Val) (fs : Feats) (hw : wfVal (leafOf v) = true)
     (hv : PV (leafOf v)) (h2 : PFs k2 v2 fs) : PFs k v (.cons k2 v2 fs) := by
-  obtain ⟨n1, h1⟩ := hv
-  obtain ⟨n2, h2⟩ := h2
-  refine ⟨n1 + n2 + 1, fun n hn rest => ?_⟩
+  obtain ⟨n1, b1, h1⟩ := hv
+  obtain ⟨n2, b2, h2⟩ := h2
+  refine ⟨n1 + n2 + 1, by
+    rw [toksFeat_length]; simp only [toksFeatsC, List.length_cons, List.length_append]; omega,
+    fun n hn rest => ?_⟩
   obtain ⟨m, rfl⟩ : ∃ m, n = m + 1 := ⟨n - 1, by omega⟩
   rw [toksFeat_shape, parseFeatLoop]
   have hs := starts_noDot _ (toksVal_starts (leafOf v) hw (toksFeatsC (.cons k2 v2 fs) ++ .rbrack :: rest))
@@ -459,14 +470,14 @@ theorem mkAVM_entries : ∀ (fs acc : Feats), keysOK fs.keys = true → wfFeats 
       exact hacc k' (by simp [Feats.keys, hk'])
 
 theorem pterm_avm_nil (d : Option Str) : PT (.avm d .nil) := by
-  refine ⟨2, fun n hn rest => ?_⟩
+  refine ⟨2, by simp [toksTerm]; omega, fun n hn rest => ?_⟩
   obtain ⟨m, rfl⟩ : ∃ m, n = m + 2 := ⟨n - 2, by omega⟩
   cases d <;> simp [toksTerm, toksFeats, docTok, parseTerm, parseFeats, mkAVM, canonTerm, canonFeats]
 
 theorem pterm_avm_cons (d : Option Str) (k : Str) (v : Val) (fs : Feats)
     (hw : wfTerm (.avm d (.cons k v fs)) = true) (hf : PFs k v fs) : PT (.avm d (.cons k v fs)) := by
-  obtain ⟨n1, h1⟩ := hf
-  refine ⟨n1 + 2, fun n hn rest => ?_⟩
+  obtain ⟨n1, b1, h1⟩ := hf
+  refine ⟨n1 + 2, by simp [toksTerm, toksFeats]; omega, fun n hn rest => ?_⟩
   obtain ⟨m, rfl⟩ : ∃ m, n = m + 2 := ⟨n - 2, by omega⟩
   simp only [wfTerm, Bool.and_eq_true] at hw
   have hmk := mkAVM_entries (.cons k v fs) .nil hw.1 hw.2 (by simp [Feats.lookup])
@@ -594,14 +605,14 @@ theorem main : ∀ n, Main n := by
 /-- MAIN (values): every well-formed value, written as tokens and followed by anything that does not
 continue the conjunction, is parsed back — with all sufficiently large fuel — to `canonVal v` and
 exactly the rest. -/
-theorem parseConj_toksVal (v : Val) (hw : wfVal v = true) :
-    ∃ n0, ∀ n, n0 ≤ n → ∀ rest, noAmp rest → parseConj n (toksVal v ++ rest) = .ok (canonVal v, rest) := by
-  obtain ⟨n0, h⟩ := (main (sizeOf v)).2.1 v (Nat.le_refl _) hw
-  refine ⟨n0, fun n hn rest hr => ?_⟩
-  simp [parseConj, h n hn rest hr, valOfList_canonList]
+theorem parseConj_toksVal (v : Val) (hw : wfVal v = true) (n : Nat) (hn : 6 * (toksVal v).length + 2 ≤ n)
+    (rest : List Tok) (hr : noAmp rest) : parseConj n (toksVal v ++ rest) = .ok (canonVal v, rest) := by
+  obtain ⟨n0, b, h⟩ := (main (sizeOf v)).2.1 v (Nat.le_refl _) hw
+  simp [parseConj, h n (by omega) rest hr, valOfList_canonList]
 
-theorem parseTerm_toksTerm (t : Term) (hw : wfTerm t = true) :
-    ∃ n0, ∀ n, n0 ≤ n → ∀ rest, parseTerm n (toksTerm t ++ rest) = .ok (canonTerm t, rest) :=
-  (main (sizeOf t)).1 t (Nat.le_refl _) hw
+theorem parseTerm_toksTerm (t : Term) (hw : wfTerm t = true) (n : Nat) (hn : 6 * (toksTerm t).length + 1 ≤ n)
+    (rest : List Tok) : parseTerm n (toksTerm t ++ rest) = .ok (canonTerm t, rest) := by
+  obtain ⟨n0, b, h⟩ := (main (sizeOf t)).1 t (Nat.le_refl _) hw
+  exact h n (by omega) rest
 
 end Verif.C15
